@@ -27,7 +27,9 @@ runs under — e.g. `Rule[skipws]` in a meta-model with `skipws=True`), every in
   at all; `Uniform g → UniformAt g sk w` for every context, `Uniform.toAt`); kept from the first round.
 
 What is missing for the full property (hence `_partial` / `_at`):
-* parser models with a Comment rule;
+* parser models with a Comment rule — in general **false** too: `C19_comment_false` (a Comment rule that shares a
+  memoized expression with the grammar; known finding `C19-memo-key-ignores-comment-context`); whether a Comment
+  rule whose expressions are disjoint from the grammar's is harmless is open (tested only);
 * parser models with rule modifiers that *change* the context / with eolterm — there the full statement is
   **false**: `C19_full_false` / `C19_statement_false` evaluate the mirror on the parser model textX compiles for
   `Model: a=A | b=B; A[noskipws]: x=X 'c'; B: x=X 'd'; X: 'a' v='b';` and the input `a bd`
@@ -336,6 +338,45 @@ example : ¬ UniformAt witness true "\t\n\r ".toList := by
   intro h
   have := (h.ctx 3 _ rfl).2.1
   simp [witness] at this
+
+/-! ## a Comment rule that shares a memoized expression with the grammar: the statement is false as well -/
+
+/-- parser model compiled by textX (`skipws=False`) for `Model: c=C 'x' | y='y'; C: '#' 'k'; Comment: C;` with the
+token table of `#ky`: the comment model *is* node 4, the sequence of rule `C`, which the first alternative of
+`Model` reaches too.  No rule modifier, no eolterm: one whitespace context throughout. -/
+def commentWitness : Grammar where
+  nodes := #[
+    { kind := .seq, kids := [1, 10], root := true, rule := "Model" },
+    { kind := .choice, kids := [2, 8], root := true, rule := "Model" },
+    { kind := .seq, kids := [3, 7] },
+    { kind := .seq, kids := [4], root := true, rule := "__asgn_plain" },
+    { kind := .seq, kids := [5, 6], root := true, rule := "C" },
+    { kind := .str, tok := 5 },
+    { kind := .str, tok := 6 },
+    { kind := .str, tok := 7 },
+    { kind := .seq, kids := [9], root := true, rule := "__asgn_plain" },
+    { kind := .str, tok := 9 },
+    { kind := .eof, rule := "EOF" }]
+  comments := some 4
+  memo := false
+  input := "#ky".toList.toArray
+  toks := #[#[], #[], #[], #[], #[], #[some 1, none, none, none], #[none, some 1, none, none],
+    #[none, none, none, none], #[], #[none, none, some 1, none], #[]]
+
+/-- **Memoization is not transparent in the presence of a Comment rule** (constant whitespace context, no
+modifiers): `C` is first parsed as a *comment* at offset 0 (inside `_parse_comments`, where `Match.parse` skips no
+comments) and succeeds; then as the *rule* `C` at offset 0 (comments skipped first, so `'#'` is looked for at
+offset 2) and fails — this `NoMatch` replaces the cache entry.  The second alternative `'y'` at offset 0 parses
+comments again (`skipws=False`: the comment-position cache is not consulted): the plain parser skips `#k` and
+accepts, the memoizing parser is answered `NoMatch` from the cache, skips nothing and rejects at offset 2.
+The cache key ignores `in_parse_comments` (Arpeggio; known finding `C19-memo-key-ignores-comment-context`). -/
+theorem C19_comment_false :
+    (run commentWitness 0 false "\t\n\r ".toList 200).accepted = true ∧
+    (run (commentWitness.withMemo true) 0 false "\t\n\r ".toList 200).failPos = some 2 := by
+  decide +kernel
+
+/-- ... although every node is free of modifiers: only the comment model keeps it out of `UniformAt` -/
+example : uniformAtB { commentWitness with comments := none } false "\t\n\r ".toList = true := by decide +kernel
 
 /-! ## non-vacuity of `UniformAt`: modifiers that restate the context, with real backtracking -/
 
